@@ -273,6 +273,13 @@ func generate(family string, n int, seed uint64, out *bufio.Writer) {
 					}
 					steps = append(steps, hexs(w.enc()))
 				default:
+					if (kind == "s1" || kind == "s1u" || kind == "sm") && r.chance(1, 5) {
+						// a valid message with a detached payload (nil): the destination's old payload must go
+						_, root := genSignedMsg(r, wcfg, kind)
+						root.Items[2] = wNull()
+						steps = append(steps, hexs(tagged(kind, root).enc()))
+						continue
+					}
 					b, _, _ := streamBytes(r, wcfg, kind)
 					steps = append(steps, hexs(b))
 				}
